@@ -93,6 +93,42 @@ PINNED_TABLE = frozenset(['__delitem__', '__getitem__', '__setitem__', '__setite
                           'remove', 'replace', 'reversed', 'round', 'shuffle', 'sorted', 'split', 'startswith', 'str', 'strip', 'sum', 'upper', 'values'])
 
 
+_TABLE_NAMES = []
+
+
+def table_names():
+    """names a program of the tree under test can call without host help: the keys of its function table, plus whatever else an evaluation with an empty
+    names mapping finds bound in its scope stack (builtins that are bound per evaluation and do not sit in FUNCTIONS)"""
+    if _TABLE_NAMES:
+        return list(_TABLE_NAMES)
+    names = set()
+    try:
+        from smartquery import functions, scoped_dict, SqParser
+        names |= set(functions.FUNCTIONS)
+        seen = []
+        orig = scoped_dict.ScopedDict.__init__
+
+        def init(self, *a, **k):
+            orig(self, *a, **k)
+            seen.append(self)
+        scoped_dict.ScopedDict.__init__ = init
+        try:
+            SqParser().eval('1', {})
+        finally:
+            scoped_dict.ScopedDict.__init__ = orig
+        for sd in seen:
+            for sc in getattr(sd, 'scopes', []):
+                names |= set(k for k in sc if isinstance(k, str))
+    except Exception:
+        pass
+    _TABLE_NAMES.extend(sorted(names))
+    return list(_TABLE_NAMES)
+
+
+def new_table_names():
+    return [n for n in table_names() if n not in PINNED_TABLE]
+
+
 def use_table_names(table_names):
     """called by the checks' setup with the names of the function table of the tree under test: names the pinned table does not have join NAMES (three times
     each, so that they are drawn about as often as the rest of the pool together with them grows); -> the new names"""
